@@ -69,7 +69,7 @@ var c09Alphabet = []c09Letter{
 
 // c09Case is one element of the enumeration and at the same time the replay value.
 type c09Case struct {
-	Fam    string `json:"fam"`           // read | oversize | write
+	Fam    string `json:"fam"`           // read | timed | oversize | write | cross | big
 	Target string `json:"target"`        // rdm pdec jdec | wdm penc jenc
 	Enc    string `json:"enc,omitempty"` // producer of the stream: penc wdm jenc compact-nl compact-cat
 	Msgs   []int  `json:"msgs"`          // indices into the alphabet
@@ -91,6 +91,10 @@ type c09Case struct {
 	Mode    string       `json:"mode,omitempty"`    // seq | overlap
 	Streams []c09XStream `json:"streams,omitempty"` // one scripted peer per call
 	Order   []int        `json:"order,omitempty"`   // overlap: global arrival order of the chunks (stream indices)
+	// big family (c09_big_test.go): a message of about Big bytes among messages with white space in their strings
+	Big   int    `json:"big,omitempty"`   // intended size of the large message (serialized / compact JSON text)
+	Shape string `json:"shape,omitempty"` // f = small message with white space inside its strings, B = the large one
+	Part  string `json:"part,omitempty"`  // how Chunks was derived (documentation only)
 }
 
 func (c c09Case) String() string { b, _ := json.Marshal(c); return string(b) }
@@ -563,15 +567,28 @@ func c09ErrClass(err error) string {
 
 // c09RunRead executes one read-family case (must run inside a bubble).
 func c09RunRead(st *c09Stream, cs *c09Case) (vs []c09Verdict, outcome string) {
-	ref := st.Refs[cs.Cut]
+	return c09RunReadAt(st, cs, st.Refs[cs.Cut], c09ReadLimit)
+}
+
+// c09Short keeps the report readable when a message of megabytes is part of a detail.
+func c09Short(s string) string {
+	if len(s) <= 1600 {
+		return s
+	}
+	return s[:900] + fmt.Sprintf(" ...[%d bytes left out]... ", len(s)-1300) + s[len(s)-400:]
+}
+
+// c09RunReadAt: ref is what the reference parser says about the delivered bytes st.Bytes[:cs.Cut];
+// limit is the size limit handed to ReadDelimitedMessage.
+func c09RunReadAt(st *c09Stream, cs *c09Case, ref c09Ref, limit int) (vs []c09Verdict, outcome string) {
 	rd := &c09Reader{data: st.Bytes[:cs.Cut], chunks: cs.Chunks, end: cs.End, zeroState: cs.ZeroState, mark: 1 << 30}
 	if cs.End == "stall" {
 		rd.release = make(chan struct{})
 	}
-	steps, hung := c09Drive(st.Target, rd, c09ReadLimit, ref.Complete+1)
+	steps, hung := c09Drive(st.Target, rd, limit, ref.Complete+1)
 	T := st.Target + ":"
 	add := func(key, format string, a ...any) {
-		vs = append(vs, c09Verdict{T + key, fmt.Sprintf(format, a...)})
+		vs = append(vs, c09Verdict{T + key, c09Short(fmt.Sprintf(format, a...))})
 	}
 	where := "at a message boundary"
 	if ref.Inside {
@@ -2006,7 +2023,7 @@ func (x *c09Run) writeFamily() {
 func TestVerifC09(t *testing.T) {
 	r := rep.New("c09-enum")
 	defer r.Write()
-	r.Rule = "one case = (target reader/writer, message sequence of 1-3 letters with sizes 0/2/3/5, number of stream bytes delivered, composition of those bytes into Read answers, ending eof|eof-with-last-data|io-error|io-error-with-last-data|stall [, zero-length-read behaviour]) resp. (limit, declared length, prefix composition) resp. (writer, sequence, index of the failing Write, partial) resp. a history over 2-3 scripted peers (letter, composition, done|stall after a cut, late bytes rest|junk arriving at a chosen chunk boundary of a later call; or two calls at once with an interleaving of the chunk arrivals); cases are distinct by construction; non-trivial = at least one byte is delivered (read), every oversize case, every failing-writer case, every multi-stream history"
+	r.Rule = "one case = (target reader/writer, message sequence of 1-3 letters with sizes 0/2/3/5, number of stream bytes delivered, composition of those bytes into Read answers, ending eof|eof-with-last-data|io-error|io-error-with-last-data|stall [, zero-length-read behaviour]) resp. (limit, declared length, prefix composition) resp. (writer, sequence, index of the failing Write, partial) resp. a history over 2-3 scripted peers (letter, composition, done|stall after a cut, late bytes rest|junk arriving at a chosen chunk boundary of a later call; or two calls at once with an interleaving of the chunk arrivals) resp. (reader, producer, stream shape around ONE message of size 2^k+-1 for k=10..21, partition lump/tail/cut with a Read-answer window ending c bytes behind the large message, c=0..64 [thorough ..160]); cases are distinct by construction; non-trivial = at least one byte is delivered (read), every oversize case, every failing-writer case, every multi-stream history, every large-message case"
 	for _, l := range c09Alphabet {
 		b, err := proto.Marshal(l.Make())
 		if err != nil || len(b) != l.Size {
@@ -2070,6 +2087,21 @@ func TestVerifC09(t *testing.T) {
 			c09CrossEnv(func() { x.bubble("replay", func() { vs, outcome = c09RunCross(&cs) }) })
 		case "write":
 			vs, outcome = c09RunWrite(&cs)
+		case "big":
+			st, why := c09BigStream(cs.Target, cs.Enc, cs.Shape, cs.Big)
+			if st == nil {
+				vs = []c09Verdict{{cs.Enc + ":written-bytes-wrong", why}}
+				break
+			}
+			sum := 0
+			for _, c := range cs.Chunks {
+				sum += c
+			}
+			if cs.Cut > len(st.Bytes) || sum != cs.Cut {
+				t.Fatalf("replay does not fit the stream produced now (%d bytes): %v", len(st.Bytes), cs)
+			}
+			fmt.Printf("stream of %d bytes, messages end at %v; reference at cut %d: %+v\n", len(st.Bytes), st.Ends, cs.Cut, st.refAt(cs.Cut))
+			x.bubble("replay", func() { vs, outcome = c09RunReadAt(st.c09Stream, &cs, st.refAt(cs.Cut), c09BigLimit) })
 		default:
 			t.Fatalf("unknown family %q", cs.Fam)
 		}
@@ -2085,6 +2117,7 @@ func TestVerifC09(t *testing.T) {
 	x.writeFamily()
 	x.oversizeFamily()
 	x.crossFamily(rep.Thorough())
+	x.bigFamily(rep.Thorough())
 	x.timedFamily(rep.Thorough())
 	x.readFamily(rep.Thorough())
 	r.Extra["cases_enumerated_all_shards"] = x.k
